@@ -116,7 +116,7 @@ PRESETS = {
     'noise': (True, {}),
     'hard-restarts': (False, {'restarts.use_restarts': True, 'restarts.use_soft_restarts': False}),
     'soft-restarts': (False, {'restarts.use_restarts': True, 'restarts.use_soft_restarts': True, 'restarts.soft.num_geom_steps': 1,
-                              'restarts.auto_detect': False}),
+                              'restarts.auto_detect': False, 'noise.quit_on_noise_level': True, 'noise.additive_noise_level': 'SYM>=0'}),
     'soft-restarts-autodetect': (False, {'restarts.use_restarts': True, 'restarts.use_soft_restarts': True, 'restarts.soft.num_geom_steps': 1}),
     'soft-restarts-increase-npt': (False, {'restarts.use_restarts': True, 'restarts.use_soft_restarts': True, 'restarts.soft.num_geom_steps': 1,
                                            'restarts.auto_detect': False, 'restarts.increase_npt': True, 'restarts.increase_npt_amt': 2,
@@ -142,6 +142,8 @@ def mk_params(E, n, npt, maxfun, preset='default', small_history=True):
     for k, v in over.items():
         if v == 'NPT+1':
             v = npt + 1
+        if v == 'SYM>=0':
+            v = E.real('noise_level', npy=False, lo=0)
         P(k, new_value=v)
     if small_history:
         # bounded configuration: short histories (user-settable parameters) keep list lengths concrete and small
